@@ -1,4 +1,5 @@
 import functools
+import os
 from tempfile import SpooledTemporaryFile
 from typing import (
     Any,
@@ -14,6 +15,20 @@ from ..datastructures import Headers
 from ..typing import ASGIApp, Scope, Receive, Send, Message
 from .requests import Request
 from .responses import Response, StreamingResponse
+
+
+def _read_file_part(file: int, offset: Any, count: Any) -> bytes:
+    if offset is not None:
+        os.lseek(file, offset, os.SEEK_SET)
+    chunks = []
+    while count is None or count > 0:
+        data = os.read(file, 4096 * 16 if count is None else min(4096 * 16, count))
+        if not data:
+            break
+        chunks.append(data)
+        if count is not None:
+            count -= len(data)
+    return b"".join(chunks)
 
 
 class CachedStream(AsyncIterator[bytes]):
@@ -81,6 +96,19 @@ class NextResponse(StreamingResponse):
                 )
             elif message["type"] == "http.response.body":
                 await body.push(message.get("body", b""))
+                if not message.get("more_body", False):
+                    await body.push_eof()
+            elif message["type"] == "http.response.zerocopysend":
+                # the inner application used the zero-copy extension of the
+                # server: read the announced part of the file ourselves
+                await body.push(
+                    await run_in_threadpool(
+                        _read_file_part,
+                        message["file"],
+                        message.get("offset"),
+                        message.get("count"),
+                    )
+                )
                 if not message.get("more_body", False):
                     await body.push_eof()
 
